@@ -5,6 +5,9 @@
 
 mod builder;
 mod cache;
+// Verification hook (constants for the oracles).
+#[cfg(mini_moka_verif)]
+pub(crate) use cache::VERIF_EVICTION_BATCH_SIZE;
 mod deques;
 mod iter;
 
